@@ -396,6 +396,17 @@ func concretise(c *GuardCase) (dec string, inputs [][]byte) {
 		}
 		return "", nil
 
+	case "cdrev":
+		// format 2: pairs of (the whole glyph space in class 1, a reversed range that assigns nothing)
+		n := c.i("pairs")
+		t := &buf{}
+		t.u16(2, 2*n)
+		for i := 0; i < n; i++ {
+			t.u16(1, 65534, 1)
+			t.u16(65535, 0, 1)
+		}
+		return "classdef", [][]byte{t.b}
+
 	case "classdef":
 		start, count := c.i("start")*8192, c.i("count")*8192
 		if count > 65535 {
@@ -513,10 +524,13 @@ func cmdGuards(casesPath, tracePath string) {
 		order[i] = i
 	}
 	cost := func(c *GuardCase) int {
-		if c.Guard != "t2fan" {
-			return 0
+		switch c.Guard {
+		case "t2fan":
+			return 1 + c.i("depth")*100 + c.i("fan")
+		case "cdrev":
+			return 2000 + c.i("pairs")
 		}
-		return 1 + c.i("depth")*100 + c.i("fan")
+		return 0
 	}
 	sort.SliceStable(order, func(a, b int) bool { return cost(&cases[order[a]]) < cost(&cases[order[b]]) })
 	for _, id := range order {
@@ -554,7 +568,7 @@ func cmdGuards(casesPath, tracePath string) {
 				}
 				ev.Site = siteCache[c.Guard]
 			}
-			if (r.Outcome == "panic" || r.Outcome == "timeout" || len(r.BadAcc) > 0 || overBudget(r.AllocKiB, len(in))) && len(in) <= 1<<18 {
+			if (r.Outcome == "panic" || r.Outcome == "timeout" || len(r.BadAcc) > 0 || overBudget(r.AllocKiB, len(in))) && len(in) <= 1<<20 {
 				ev.Data = base64.StdEncoding.EncodeToString(in)
 			}
 			out.Emit(ev)
